@@ -1,13 +1,35 @@
 package tree
 
+import (
+	"slices"
+	"strings"
+)
+
 func getListEntrySortFunc(parent Entry) func(a, b Entry) int {
 	// return the comparison function
 	return func(a, b Entry) int {
 		keys := parent.GetSchemaKeys()
+		// the key levels of the tree are sorted by the name of the key (see utils.ToStrings())
+		sortedKeys := slices.Clone(keys)
+		slices.Sort(sortedKeys)
 		var cmpResult int
 		for _, v := range keys {
-			aLvSlice := a.getChildren()[v].GetHighestPrecedence(LeafVariantSlice{}, false)
-			bLvSlice := b.getChildren()[v].GetHighestPrecedence(LeafVariantSlice{}, false)
+			aChild, aExists := a.getChildren()[v]
+			bChild, bExists := b.getChildren()[v]
+			var aLvSlice, bLvSlice LeafVariantSlice
+			if aExists && bExists {
+				aLvSlice = aChild.GetHighestPrecedence(LeafVariantSlice{}, false)
+				bLvSlice = bChild.GetHighestPrecedence(LeafVariantSlice{}, false)
+			}
+			if len(aLvSlice) == 0 || len(bLvSlice) == 0 {
+				// the key leaf is not part of the tree for (one of) the entries,
+				// compare the key values that the key levels of the tree carry
+				cmpResult = strings.Compare(getKeyLevelValue(a, sortedKeys, v), getKeyLevelValue(b, sortedKeys, v))
+				if cmpResult != 0 {
+					return cmpResult
+				}
+				continue
+			}
 
 			aEntry := aLvSlice[0]
 			bEntry := bLvSlice[0]
@@ -22,4 +44,15 @@ func getListEntrySortFunc(parent Entry) func(a, b Entry) int {
 		}
 		return 0
 	}
+}
+
+// getKeyLevelValue returns the value of the given key for the list entry e (the last key level in the tree).
+func getKeyLevelValue(e Entry, sortedKeys []string, key string) string {
+	for i := len(sortedKeys) - 1; i >= 0 && e != nil; i-- {
+		if sortedKeys[i] == key {
+			return e.PathName()
+		}
+		e = e.GetParent()
+	}
+	return ""
 }
